@@ -129,6 +129,30 @@ func (cn *Conn) readLoop() {
 	close(cn.closed)
 }
 
+// sendSplit writes line+a, lets gap pass, then writes b -- as ONE command (nothing else of this connection in between)
+func (cn *Conn) sendSplit(line string, a, b []byte, gap time.Duration) error {
+	cn.wmu.Lock()
+	defer cn.wmu.Unlock()
+	cn.c.SetWriteDeadline(time.Now().Add(20 * time.Second))
+	for i, part := range [][]byte{append([]byte(line), a...), b} {
+		if i == 1 {
+			time.Sleep(gap)
+		}
+		if _, err := cn.w.Write(part); err != nil {
+			return err
+		}
+		if err := cn.w.Flush(); err != nil {
+			return err
+		}
+		if cn.flush != nil {
+			if err := cn.flush(); err != nil {
+				return err
+			}
+		}
+	}
+	return nil
+}
+
 func (cn *Conn) send(line string, body []byte) error {
 	cn.wmu.Lock()
 	defer cn.wmu.Unlock()
